@@ -72,6 +72,9 @@ class ImmutableListMixin:
     def sort(self, key: t.Any = None, reverse: t.Any = False) -> t.NoReturn:
         _immutable_error(self)
 
+    def clear(self) -> t.NoReturn:
+        _immutable_error(self)
+
 
 class ImmutableDictMixin(t.Generic[K, V]):
     """Makes a :class:`dict` immutable.
@@ -225,6 +228,9 @@ class ImmutableHeadersMixin:
         _immutable_error(self)
 
     def setlistdefault(self, key: t.Any, default: t.Any) -> t.NoReturn:
+        _immutable_error(self)
+
+    def clear(self) -> t.NoReturn:
         _immutable_error(self)
 
 
